@@ -79,11 +79,11 @@ fn gen_scenario(rng: &mut vsim::rng::Rng) -> Scenario {
 
 /// canonical form of a run: phases of message multisets, action list, final outcome, terminal event
 #[derive(Debug, PartialEq, Clone)]
-struct Canon {
-    actions: Vec<String>,
-    phases: Vec<Vec<String>>,
-    outcome: BTreeMap<String, Vec<String>>,
-    terminal: Vec<String>,
+pub struct Canon {
+    pub actions: Vec<String>,
+    pub phases: Vec<Vec<String>>,
+    pub outcome: BTreeMap<String, Vec<String>>,
+    pub terminal: Vec<String>,
 }
 
 fn strip_ids(v: &Value, ids: &BTreeSet<String>) -> Value {
@@ -95,7 +95,7 @@ fn strip_ids(v: &Value, ids: &BTreeSet<String>) -> Value {
     }
 }
 
-fn canon(rec: &RunRecord) -> Canon {
+pub fn canon(rec: &RunRecord) -> Canon {
     let ids: BTreeSet<String> = rec.trans.iter().map(|t| t.tid.clone()).chain(rec.msgs.iter().map(|m| m.tid.clone())).filter(|t| t != "$").collect();
     let mut phases: Vec<Vec<String>> = vec![vec![]];
     let mut ai = 0;
